@@ -1661,6 +1661,11 @@ class Union(OR):
         yield from self.evaluate_left(sources)
         yield from self.evaluate_right(sources)
 
+    def _invert_(self):
+        # A union yields the solutions of each operand separately, so negating its outputs one by one is not the
+        # negation of the disjunction; use De Morgan instead.
+        return AND(self.left._invert_(), self.right._invert_())
+
 
 @dataclass(eq=False, repr=False)
 class ElseIf(OR):
